@@ -518,3 +518,95 @@ func opaqueFormat(fn *ssa.Function, args []value) (value, bool) {
 	}
 	return nil, false
 }
+
+// symDecimal models base-10 formatting of a symbolic integer: the digit
+// count is decided by forks (n < 10, n < 100, ...), each digit is
+// '0' + (n / 10^j) % 10 computed at the narrowest width that holds n.
+// (Differentially validated against strconv by the conformance vectors.)
+func (i *interpreter) symDecimal(fr *frame, fn *ssa.Function, args []value) (value, bool) {
+	var n *Term
+	signed := false
+	appendTo := []value(nil)
+	isAppend := false
+	switch fn.Name() {
+	case "Itoa":
+		t, ok := args[0].(*Term)
+		if !ok {
+			return nil, false
+		}
+		n, signed = t, true
+	case "FormatInt", "FormatUint":
+		t, ok := args[0].(*Term)
+		if !ok {
+			return nil, false
+		}
+		if b, ok := args[1].(int); !ok || b != 10 {
+			return nil, false
+		}
+		n, signed = t, fn.Name() == "FormatInt"
+	case "AppendInt", "AppendUint":
+		t, ok := args[1].(*Term)
+		if !ok {
+			return nil, false
+		}
+		if b, ok := args[2].(int); !ok || b != 10 {
+			return nil, false
+		}
+		n, signed = t, fn.Name() == "AppendInt"
+		appendTo, isAppend = args[0].([]value), true
+	default:
+		return nil, false
+	}
+	var out []value
+	if signed {
+		if i.branch(mk("bvslt", boolSort, n, mkBV(64, 0)), token.NoPos) {
+			out = append(out, uint8('-'))
+			n = mk("bvneg", bvSort(64), n)
+		}
+	}
+	// digit count
+	d := 20
+	pow := uint64(10)
+	for k := 1; k < 20; k++ {
+		if i.branch(mk("bvult", boolSort, n, mkBV(64, pow)), token.NoPos) {
+			d = k
+			break
+		}
+		pow *= 10
+	}
+	w := 64
+	switch {
+	case d <= 2:
+		w = 8
+	case d <= 4:
+		w = 16
+	case d <= 9:
+		w = 32
+	}
+	nn := n
+	if w < 64 {
+		nn = mkP("extract", bvSort(w), w-1, 0, n)
+	}
+	digits := make([]value, d)
+	p := uint64(1)
+	for j := 0; j < d; j++ {
+		q := nn
+		if p > 1 {
+			q = mk("bvudiv", bvSort(w), nn, mkBV(w, p))
+		}
+		dig := mk("bvurem", bvSort(w), q, mkBV(w, 10))
+		var d8 *Term
+		if w == 8 {
+			d8 = dig
+		} else {
+			d8 = mkP("extract", bvSort(8), 7, 0, dig)
+		}
+		digits[d-1-j] = mk("bvadd", bvSort(8), d8, mkBV(8, '0'))
+		p *= 10
+	}
+	out = append(out, digits...)
+	if isAppend {
+		return append(appendTo, out...), true
+	}
+	return mkStr(out), true
+}
